@@ -159,6 +159,17 @@ func runSwarm(steps []swStep) (fail string, labels map[string]bool, hist []strin
 				m["ut_pex"] = 9
 			}
 			hs := protocol.Extended0{Version: "swarm", Messages: m}
+			if !s.In && s.Q%4 == 1 {
+				// an outgoing connection whose peer names another listening port than
+				// the one that was dialled: the peer stays who it was (a peer whose
+				// port is not known yet takes the one it names)
+				hs.Port = uint16(50000 + len(ps))
+				if a.Port() == 0 {
+					a = netip.AddrPortFrom(a.Addr(), hs.Port)
+				} else {
+					labels["outgoing-peer-names-another-port"] = true
+				}
+			}
 			if s.In {
 				// an incoming connection's source port says nothing; the handshake may carry the listening port
 				if s.Q%3 != 0 {
